@@ -191,7 +191,7 @@ func c17Gen(rng *rand.Rand, i int) c17Case {
 	}
 	npool := 1 + rng.Intn(4) // few names per case: duplicates are likely
 	off := rng.Intn(len(pool))
-	numberedOK := !cs.Ecma && (!cs.Mco || rng.Intn(6) == 0)
+	numberedOK := !cs.Ecma
 	if cs.Ecma && rng.Intn(25) == 0 {
 		numberedOK = true
 	}
@@ -246,7 +246,7 @@ func c17Gen(rng *rand.Rand, i int) c17Case {
 				e.Num = []int{2, 5, 7, 10, 11, 20, 99, 100, 1000}[rng.Intn(9)]
 			}
 			e.Sp = rng.Intn(2)
-			if rng.Intn(20) == 0 {
+			if rng.Intn(8) == 0 {
 				e.Sp = 3
 			}
 		case r < 9:
@@ -263,7 +263,9 @@ func c17Gen(rng *rand.Rand, i int) c17Case {
 		for _, e := range cs.Evs {
 			if e.K == "n" {
 				refs = append(refs, e.Name)
-			} else if e.K == "k" && e.Sp != 3 {
+			} else if e.K == "k" && e.Sp != 3 && !cs.Mco {
+				// (in pattern-order mode a number after the '-' still means the slot with that number,
+				// which need not exist: only names are used as references there)
 				refs = append(refs, strconv.Itoa(e.Num))
 			}
 		}
@@ -279,14 +281,15 @@ func c17Gen(rng *rand.Rand, i int) c17Case {
 
 // the documented numbering rule, written down independently of the parser's algorithm: which
 // number designates event i (-1: not capturing), and the number of every explicit name.
-// ok=false when the documented rule says nothing definite (explicit numbers under
-// MaintainCaptureOrder, leading-zero numbers, balancing groups).
+// A number written with leading zeros is the same number.  In pattern-order mode an explicitly
+// numbered group (?<k>…) is booked in pattern order under the name "k" (fix 4579bd8).
+// ok=false when the rule says nothing definite (balancing groups, numbered groups under ECMAScript).
 func c17Spec(cs c17Case) (evNum []int, nameNum map[string]int, ok bool) {
 	evNum = make([]int, len(cs.Evs))
 	nameNum = map[string]int{}
 	ok = true
 	for _, e := range cs.Evs {
-		if e.Bal != "" || (e.K == "k" && (e.Sp == 3 || cs.Mco || cs.Ecma)) {
+		if e.Bal != "" || (e.K == "k" && cs.Ecma) {
 			ok = false
 		}
 	}
@@ -297,11 +300,15 @@ func c17Spec(cs c17Case) (evNum []int, nameNum map[string]int, ok bool) {
 			case e.K == "u" && !cs.N:
 				evNum[i] = next
 				next++
-			case e.K == "n":
-				if v, seen := nameNum[e.Name]; seen {
+			case e.K == "n" || e.K == "k":
+				nm := e.Name
+				if e.K == "k" {
+					nm = strconv.Itoa(e.Num)
+				}
+				if v, seen := nameNum[nm]; seen {
 					evNum[i] = v
 				} else {
-					nameNum[e.Name] = next
+					nameNum[nm] = next
 					evNum[i] = next
 					next++
 				}
@@ -391,7 +398,7 @@ func c17Oracle(cs c17Case) (obs c17Obs, fail *core.Failure, buckets []string) {
 			fail = c17Fail("impl-violation", key, "["+mode+"] "+pat+": "+summary, exp, got)
 		}
 	}
-	zonePrefix := ""
+	const zonePrefix = ""
 	defer func() {
 		if r := recover(); r != nil {
 			fail = c17Fail("impl-violation", zonePrefix+"panic", "["+mode+"] "+pat+": the engine panicked", "no panic", fmt.Sprint(r))
@@ -403,9 +410,7 @@ func c17Oracle(cs c17Case) (obs c17Obs, fail *core.Failure, buckets []string) {
 		buckets = append(buckets, "compile-error")
 		switch {
 		case cs.Ecma && (dup || hasNum): // documented: ECMAScript has neither duplicate names nor numbered groups
-		case hasLead0 || hasBal: // left to the model correspondence
-		case cs.Mco && hasNum:
-			bad("mco-numbered:compile-error", "explicitly numbered group is rejected under MaintainCaptureOrder", "compiles", obs.err)
+		case hasBal: // left to the model correspondence
 		default:
 			bad("compile-error", "pattern does not compile", "compiles", obs.err)
 		}
@@ -423,13 +428,17 @@ func c17Oracle(cs c17Case) (obs c17Obs, fail *core.Failure, buckets []string) {
 	} else {
 		buckets = append(buckets, "dense")
 	}
-	zoneMco := cs.Mco && hasNum // explicit numbers under MaintainCaptureOrder: suspected defect, own keys
-	if zoneMco {
-		zonePrefix = "mco-numbered:"
-	} else if hasLead0 {
-		zonePrefix = "lead0:"
+	zk := func(k string) string { return k }
+	// pattern-order mode with an explicit number: the group (?<k>…) is named "k", which may also be the
+	// automatic name of another (unnamed) slot, e.g. (a)(?<1>b): names [0 1 1]. The written name wins
+	// in GroupNumberFromName; the automatic one is then ambiguous and not looked up by name.
+	ambiguous := func(i int) bool {
+		if !cs.Mco || !hasNum || names[i] != strconv.Itoa(nums[i]) {
+			return false
+		}
+		want, written := specName[names[i]]
+		return written && want != nums[i]
 	}
-	zk := func(k string) string { return zonePrefix + k }
 
 	// A. shape of the two lists
 	if len(names) != len(nums) || len(nums) == 0 || len(nums) != obs.capsz {
@@ -444,7 +453,7 @@ func c17Oracle(cs c17Case) (obs c17Obs, fail *core.Failure, buckets []string) {
 			bad(zk("numbers-repeat"), "GetGroupNumbers repeats a number", "distinct", fmt.Sprint(nums))
 		}
 	}
-	if (cs.Mco || cs.Ecma) && sparse && !zoneMco {
+	if (cs.Mco || cs.Ecma) && sparse {
 		bad("order-not-dense", "pattern-order numbering left a gap", "0..n-1", fmt.Sprint(nums))
 	}
 	want0 := "0"
@@ -461,11 +470,11 @@ func c17Oracle(cs c17Case) (obs c17Obs, fail *core.Failure, buckets []string) {
 		if got := re.GroupNameFromNumber(n); got != names[i] {
 			bad(zk("name-from-number"), fmt.Sprintf("GroupNameFromNumber(%d) differs from GetGroupNames[%d]", n, i), names[i], got)
 		}
-		if names[i] != "" {
+		if names[i] != "" && !ambiguous(i) {
 			if got := re.GroupNumberFromName(names[i]); got != n {
 				bad(zk("number-from-name"), fmt.Sprintf("GroupNumberFromName(%q) is not the number it is listed with", names[i]), fmt.Sprint(n), fmt.Sprint(got))
 			}
-		} else if !cs.Ecma {
+		} else if names[i] == "" && !cs.Ecma {
 			bad(zk("empty-name"), "a group has no name outside ECMAScript mode", "name", fmt.Sprintf("%q", names))
 		}
 	}
@@ -536,7 +545,7 @@ func c17Oracle(cs c17Case) (obs c17Obs, fail *core.Failure, buckets []string) {
 		if gs[i].String() != g.String() || len(gs[i].Captures) != len(g.Captures) {
 			bad(zk("groups-order"), fmt.Sprintf("Groups()[%d] is not GroupByNumber(%d)", i, n), g.String(), gs[i].String())
 		}
-		if names[i] != "" {
+		if names[i] != "" && !ambiguous(i) {
 			gn := m.GroupByName(names[i])
 			if gn == nil || gn.String() != g.String() || len(gn.Captures) != len(g.Captures) {
 				got := "nil"
@@ -565,7 +574,7 @@ func c17Oracle(cs c17Case) (obs c17Obs, fail *core.Failure, buckets []string) {
 		if last >= 0 && g.String() != span[last] {
 			bad(zk("last-capture"), fmt.Sprintf("value of group %d is not its last capture", n), span[last], g.String())
 		}
-		if len(g.Captures) == 0 && !zoneMco {
+		if len(g.Captures) == 0 {
 			bad("never-captures", fmt.Sprintf("group %d is listed but no group of the pattern captures into it", n), "a capture", "none")
 		}
 	}
@@ -590,10 +599,14 @@ func c17Oracle(cs c17Case) (obs c17Obs, fail *core.Failure, buckets []string) {
 	valName := map[string]string{}
 	bestN := map[string]int{}
 	for i, e := range cs.Evs {
-		if e.K == "n" {
-			if r, ok := bestN[e.Name]; !ok || rank[i] > r {
-				bestN[e.Name], valName[e.Name] = rank[i], span[i]
-			}
+		nm := e.Name
+		if e.K == "k" && cs.Mco {
+			nm = strconv.Itoa(e.Num) // booked under its decimal string
+		} else if e.K != "n" {
+			continue
+		}
+		if r, ok := bestN[nm]; !ok || rank[i] > r {
+			bestN[nm], valName[nm] = rank[i], span[i]
 		}
 	}
 	{
@@ -622,7 +635,7 @@ func c17Oracle(cs c17Case) (obs c17Obs, fail *core.Failure, buckets []string) {
 		}
 		repls = append(repls, ref{"$" + strconv.Itoa(n), want}, ref{"${" + strconv.Itoa(n) + "}", want})
 		nm := names[i]
-		if nm != "" && nm != strconv.Itoa(n) {
+		if nm != "" && nm != strconv.Itoa(n) && !c17AllDigits(nm) { // \k<12>, ${12} are read as numbers
 			refs = append(refs, ref{`\k<` + nm + `>`, want})
 			if !cs.Ecma {
 				refs = append(refs, ref{`\k'` + nm + `'`, want})
@@ -689,24 +702,16 @@ func c17Oracle(cs c17Case) (obs c17Obs, fail *core.Failure, buckets []string) {
 			}
 		}
 	}
-	// E. known weak spots, checked last so that they never hide anything else
+	// E. Groups()[i].Name, numbers that are no groups, digit strings that are no names
 	for i := range nums {
 		if gs[i].Name != names[i] {
-			k := "groups-name"
-			if sparse {
-				k = "groups-name-sparse"
-			}
-			bad(zk(k), fmt.Sprintf("Groups()[%d].Name is not GetGroupNames[%d] (number %d)", i, i, nums[i]), names[i], gs[i].Name)
+			bad("groups-name", fmt.Sprintf("Groups()[%d].Name is not GetGroupNames[%d] (number %d)", i, i, nums[i]), names[i], gs[i].Name)
 		}
 	}
 	for n := -1; n <= top+2; n++ {
 		if !inList[n] {
 			if g := m.GroupByNumber(n); g != nil {
-				k := "group-by-unknown-number"
-				if sparse {
-					k = "group-by-unknown-number-sparse"
-				}
-				bad(zk(k), fmt.Sprintf("GroupByNumber(%d) returns a group although %d is not a group number", n, n), "nil", fmt.Sprintf("%q", g.String()))
+				bad("group-by-unknown-number", fmt.Sprintf("GroupByNumber(%d) returns a group although %d is not a group number", n, n), "nil", fmt.Sprintf("%q", g.String()))
 			}
 		}
 	}
@@ -720,6 +725,15 @@ func c17Oracle(cs c17Case) (obs c17Obs, fail *core.Failure, buckets []string) {
 		obs.captop = tree.Captop
 	}
 	return
+}
+
+func c17AllDigits(s string) bool {
+	for i := 0; i < len(s); i++ {
+		if s[i] < '0' || s[i] > '9' {
+			return false
+		}
+	}
+	return s != ""
 }
 
 func c17Has(xs []string, s string) bool {
@@ -797,13 +811,7 @@ func c17Render(o c17Obs, withEv bool) string {
 	return core.S("ok", parts...)
 }
 
-func c17Check(c *core.Ctx, cases []c17Case) []core.Outcome { return c17CheckMode(c, cases, false) }
-
-// c17CheckKnown reports only the failures that fall into the suspected-defect zones of
-// design.d/C17.md (own leg, own failure budget: they must never crowd out anything else).
-func c17CheckKnown(c *core.Ctx, cases []c17Case) []core.Outcome { return c17CheckMode(c, cases, true) }
-
-func c17CheckMode(c *core.Ctx, cases []c17Case, knownOnly bool) []core.Outcome {
+func c17Check(c *core.Ctx, cases []c17Case) []core.Outcome {
 	outs := make([]core.Outcome, len(cases))
 	lines := make([]string, len(cases))
 	obs := make([]c17Obs, len(cases))
@@ -824,14 +832,6 @@ func c17CheckMode(c *core.Ctx, cases []c17Case, knownOnly bool) []core.Outcome {
 			o.Buckets = append(o.Buckets, "oracle-fail:"+o.Fail.Key)
 		}
 	}
-	if knownOnly {
-		for i := range outs {
-			if outs[i].Fail != nil && !c17KnownZone(outs[i].Fail.Key) {
-				outs[i].Fail = nil // reported by leg G
-			}
-		}
-		return outs
-	}
 	res, err := c.RunDriver(lines)
 	if err != nil {
 		for i := range outs {
@@ -843,10 +843,9 @@ func c17CheckMode(c *core.Ctx, cases []c17Case, knownOnly bool) []core.Outcome {
 		return outs
 	}
 	for i := range cases {
-		if outs[i].Fail != nil && !c17KnownZone(outs[i].Fail.Key) {
+		if outs[i].Fail != nil {
 			continue
 		}
-		outs[i].Fail = nil // suspected-defect zones are reported by leg Gk; the model is still compared
 		outs[i].Buckets = append(outs[i].Buckets, "model-compared")
 		withEv := obs[i].evNum != nil
 		got := c17Render(obs[i], withEv)
@@ -860,12 +859,6 @@ func c17CheckMode(c *core.Ctx, cases []c17Case, knownOnly bool) []core.Outcome {
 		}
 	}
 	return outs
-}
-
-// keys of the suspected defects written up in design.d/C17.md: the model correspondence is still
-// checked for these cases (the model describes what the code does)
-func c17KnownZone(key string) bool {
-	return strings.HasPrefix(key, "mco-numbered:") || strings.HasPrefix(key, "lead0:") || strings.HasSuffix(key, "-sparse") || key == "number-of-noncanonical-digits"
 }
 
 // c17DropEv removes the trailing (ev …) part of a driver answer
@@ -891,16 +884,22 @@ func init() {
 			{Evs: []c17Ev{{K: "k", Num: 2}, {K: "u", Up: 1}, {K: "u", Up: 1}}, Mco: true},
 			{Evs: []c17Ev{{K: "u"}, {K: "k", Num: 1, Up: 1, Sp: 3}}},
 			{Evs: []c17Ev{{K: "u"}, {K: "n", Name: "x", Up: 1}, {K: "n", Name: "y", Up: 1, Bal: "x"}}},
+			// witnesses of the former findings F1-F6 (fixed in /repo: 2bf8733 9af4686 4181360 14b4ba0 4579bd8)
+			{Evs: []c17Ev{{K: "u"}, {K: "n", Name: "x", Up: 1}, {K: "k", Num: 7, Up: 1}}}, // F1 Groups()[3].Name, F2 GroupByNumber(3)
+			{Evs: []c17Ev{{K: "k", Num: 2}, {K: "k", Num: 3, Up: 1}}},                     // F1 slot 2 was named "2"
+			{Evs: []c17Ev{{K: "u"}, {K: "k", Num: 7, Up: 1}}},                             // F2
+			{Evs: []c17Ev{{K: "u"}, {K: "k", Num: 1, Up: 1}}, Mco: true},                  // F3 (a)(?<1>b)
+			{Evs: []c17Ev{{K: "k", Num: 5}}, Mco: true},                                   // F3 (?<5>a) was rejected
+			{Evs: []c17Ev{{K: "k", Num: 2}, {K: "u", Up: 1}, {K: "u", Up: 1}}, Mco: true}, // F3 (?<2>a)(b)(c)
+			{Evs: []c17Ev{{K: "u"}, {K: "u", Up: 1}}},                                     // F4 "", "00", "01", overflow
+			{Evs: []c17Ev{{K: "n", Name: "x"}, {K: "k", Num: 1, Up: 1, Sp: 3}}},           // F5 (?<x>a)(?<01>b)
+			{Evs: []c17Ev{{K: "k", Num: 1, Sp: 3}}},                                       // F5 (?<01>a) alone was rejected
+			{Evs: []c17Ev{{K: "k", Num: 1, Sp: 3}, {K: "u", Up: 1}}, Mco: true},           // F6 (?<01>a)(b) panicked
 		}
 		core.RunLeg(c, core.Leg[c17Case]{
 			Name: "G", Kind: "correspondence+oracle",
-			Rule:   "random lists of 1-15 group-opening events (unnamed / named from a pool of 1-4 names incl. digit-like and non-ASCII names / explicitly numbered, dense and sparse / non-capturing), random nesting, spellings (?<>, (?'', (?P<> (RE2), leading-zero numbers, occasional balancing group; x {default, MaintainCaptureOrder, ECMAScript, RE2, ExplicitCapture and pairs}; every group wraps its own letter. non-trivial = at least two capturing groups; distinct by (mode, pattern). Each case: cross-API oracle on the Go engine (lists aligned/ascending, lookups inverse, Groups() order, GroupByName/GroupByNumber texts, documented numbering rule, \\k<name> \\N (?P=name) references, ${name} $N replacement) and Lean Groups.assign vs GetGroupNumbers/GetGroupNames/Code.Caps/Capsize/per-group numbers",
+			Rule:   "random lists of 1-15 group-opening events (unnamed / named from a pool of 1-4 names incl. digit-like and non-ASCII names / explicitly numbered, dense and sparse, 1 in 8 written with a leading zero / non-capturing), random nesting, spellings (?<>, (?'', (?P<> (RE2), occasional balancing group; x {default, MaintainCaptureOrder, ECMAScript, RE2, ExplicitCapture and pairs}; every group wraps its own letter. non-trivial = at least two capturing groups; distinct by (mode, pattern). Each case: cross-API oracle on the Go engine (lists aligned/ascending, lookups inverse, Groups() order and names, GroupByName/GroupByNumber texts and nil for non-groups, documented numbering rule incl. explicit numbers booked in pattern order under MaintainCaptureOrder, \\k<name> \\N (?P=name) references, ${name} $N replacement, no panic) and Lean Groups.assign vs GetGroupNumbers/GetGroupNames/Code.Caps/Capsize/per-group numbers",
 			Corpus: corpus, N: c.N(6000, 200000), Gen: c17Gen, Check: c17Check,
-		})
-		core.RunLeg(c, core.Leg[c17Case]{
-			Name: "Gk", Kind: "oracle",
-			Rule:   "same generator and oracle as leg G, reporting only the failures inside the suspected-defect zones of design.d/C17.md (sparse numbers: Groups()[i].Name, GroupByNumber of a non-number; explicit numbers under MaintainCaptureOrder; leading-zero numbers; non-canonical digit strings in GroupNumberFromName), so that they have their own failure budget",
-			Corpus: corpus, N: c.N(3000, 50000), Gen: c17Gen, Check: c17CheckKnown,
 		})
 	})
 }
